@@ -1,6 +1,8 @@
 /-
   C03 — Tag iteration reproduces the specification's tag walk, zero-copy.
 -/
+import Mb2.Props.FnsTblMbi
+import Mb2.Props.FnsTblTags
 import Mb2.Props.FnsDstMbi
 import Mb2.Props.FnsLinked
 import Mb2.Props.FnsCast
